@@ -20,7 +20,7 @@ CONSTANT CrashOnly       \* TRUE: accept every run in which the implementation d
 VARIABLES l, m            \* trace line being validated, machine state
 vars == <<l, m>>
 
-Load(k) == Init0(Rec[k].prog, Rec[k].inp, -1, 0)
+Load(k) == InitLast(Rec[k].prog, Rec[k].inp, -1, 0)
 Init == l = 1 /\ m = IF Len(Rec) >= 1 THEN Load(1) ELSE [st |-> "none"]
 
 (* a recorded value matches a model value: equal, except that the model's undetermined classes (a number outside the exact *)
@@ -44,9 +44,9 @@ SnapMatches(me, oe) ==
 
 (* the machine's new snapshot, if this step emitted one, equals the recorded snapshot at that position *)
 EventOK(r, old, new) ==
-  IF CrashOnly \/ Len(new.evs) = Len(old.evs) THEN TRUE
-  ELSE IF Len(new.evs) > Len(r.evs) THEN FALSE
-  ELSE SnapMatches(new.evs[Len(new.evs)], r.evs[Len(new.evs)])
+  IF CrashOnly \/ new.nev = old.nev THEN TRUE
+  ELSE IF new.nev > Len(r.evs) THEN FALSE
+  ELSE SnapMatches(new.evs[1], r.evs[new.nev])
 
 MachineStep == /\ l <= Len(Rec) /\ m.st = "run"
         /\ LET n == Next1(m) IN EventOK(Rec[l], m, n) /\ m' = n
@@ -55,10 +55,11 @@ MachineStep == /\ l <= Len(Rec) /\ m.st = "run"
 EndOK(r, fin) ==
   IF CrashOnly THEN r.st # "panic"
   ELSE IF fin.st \in {"unspec", "fuel", "blowup"} THEN r.st # "panic"
-  ELSE fin.st = r.st /\ fin.out = r.out /\ fin.rd = r.rd /\ Len(fin.evs) = Len(r.evs)
+  ELSE fin.st = r.st /\ fin.out = r.out /\ fin.rd = r.rd /\ fin.nev = Len(r.evs)
 
 Finish == /\ l <= Len(Rec) /\ m.st # "run"
           /\ EndOK(Rec[l], m)
+          /\ PrintT(<<"FIN", l, m.st, m.nev, m.steps>>)          \* how far the specified region reached in this run
           /\ l' = l + 1
           /\ m' = IF l + 1 <= Len(Rec) THEN Load(l + 1) ELSE [st |-> "none"]
 
